@@ -406,7 +406,8 @@ func (d *driver) setup(spec CfgSpec) error {
 			f.ClientID = "client-" + f.Name
 		}
 		if f.ClientSecret == "" {
-			f.ClientSecret = "CS-" + f.Name + "-k9Zq7Lw2Xc4Vb6Nm"
+			// (with the characters provider-issued secrets contain: an environment-variable look-alike, percent, plus, slash, equals, bang)
+			f.ClientSecret = "CS-" + f.Name + "-k9Zq$HOME7Lw%41+2Xc/4Vb=6Nm!$$"
 		}
 		if f.IDHeader == "" {
 			f.IDHeader = "authorization"
@@ -554,7 +555,7 @@ func (d *driver) setup(spec CfgSpec) error {
 	e.factory = &spyFactory{d: d, real: fac, spies: map[oidc.SessionStore]*spyStore{}}
 	e.filter = server.NewExtAuthZFilter(e.cfg, tlsPool, &spyJWKS{d: d, real: jw}, e.factory)
 	proto.Merge(e.cfg, &cf.Config)
-	go func() { _ = jw.ServeContext(ctx) }()
+	startUnit(ctx, jw)
 	if err := fac.PreRun(); err != nil {
 		cancel()
 		return err
@@ -579,7 +580,7 @@ func (d *driver) setup(spec CfgSpec) error {
 			return err
 		}
 		jw2 := oidc.NewJWKSProvider(e.cfg, tlsPool)
-		go func() { _ = jw2.ServeContext(ctx) }()
+		startUnit(ctx, jw2)
 		sf := &spyFactory{d: d, real: fac2, spies: map[oidc.SessionStore]*spyStore{}, tag: fmt.Sprintf("r%d", i)}
 		e.replicas = append(e.replicas, server.NewExtAuthZFilter(e.cfg, tlsPool, &spyJWKS{d: d, real: jw2}, sf))
 	}
